@@ -18,6 +18,7 @@
 -/
 import Statrs.Real.Simp
 import Statrs.Gen.SF
+import Mathlib.Analysis.SpecialFunctions.Exp
 namespace Statrs.Spec.Incomplete
 open Statrs Statrs.Gen
 
@@ -68,5 +69,82 @@ structure BetaShiftSpec [SF ℝ] : Prop where
     `beta_reg(1, 1, p)`, while `Bernoulli::cdf` is the closed form `1 − p`. -/
 structure BetaOneOneSpec [SF ℝ] : Prop where
   one_one : ∀ x : ℝ, 0 ≤ x → x ≤ 1 → SF.beta_reg 1 1 x = x
+
+/-! ### joint satisfiability
+
+  A toy instance (`P(a,x) = 1 − e^{−x}`, `I_x(a,b) = x`, everything else junk) satisfies all five
+  structures at once, so the premises are consistent and the `…_rel` theorems are not vacuous.
+  (The toy is not the real function; it only shows the list of assumed facts has a model.) -/
+
+/-- a throw-away `SF ℝ` used only for the consistency check below -/
+@[reducible] noncomputable def toySF : SF ℝ where
+  beta := fun _ _ => 0
+  beta_inc := fun _ _ _ => 0
+  beta_reg := fun _ _ x => x
+  checked_beta := fun _ _ => .ok 0
+  checked_beta_inc := fun _ _ _ => .ok 0
+  checked_beta_reg := fun _ _ x => .ok x
+  checked_ln_beta := fun _ _ => .ok 0
+  inv_beta_reg := fun _ _ x => x
+  ln_beta := fun _ _ => 0
+  erf := fun _ => 0
+  erf_inv := fun _ => 0
+  erfc := fun _ => 0
+  erfc_inv := fun _ => 0
+  polynomial := fun _ _ => 0
+  integral := fun _ _ => none
+  binomial := fun _ _ => 0
+  checked_multinomial := fun _ _ => none
+  factorial := fun _ => 0
+  ln_binomial := fun _ _ => 0
+  ln_factorial := fun _ => 0
+  multinomial := fun _ _ => 0
+  checked_gamma_li := fun _ _ => .ok 0
+  checked_gamma_lr := fun _ x => .ok (1 - Real.exp (-x))
+  checked_gamma_ui := fun _ _ => .ok 0
+  checked_gamma_ur := fun _ x => .ok (Real.exp (-x))
+  digamma := fun _ => 0
+  gamma := fun _ => 0
+  gamma_li := fun _ _ => 0
+  gamma_lr := fun _ x => 1 - Real.exp (-x)
+  gamma_ui := fun _ _ => 0
+  gamma_ur := fun _ x => Real.exp (-x)
+  inv_digamma := fun _ => 0
+  ln_gamma := fun _ => 0
+  gen_harmonic := fun _ _ => 0
+  harmonic := fun _ => 0
+  checked_logit := fun _ => none
+  logistic := fun _ => 0
+  logit := fun _ => 0
+
+theorem specs_consistent :
+    ∃ inst : SF ℝ, @GammaSpec inst ∧ @GammaShiftSpec inst ∧ @BetaSpec inst ∧ @BetaShiftSpec inst ∧
+      @BetaOneOneSpec inst := by
+  refine ⟨toySF, @GammaSpec.mk toySF ?_ ?_ ?_ ?_, @GammaShiftSpec.mk toySF ?_,
+    @BetaSpec.mk toySF ?_ ?_ ?_ ?_ ?_ ?_, @BetaShiftSpec.mk toySF ?_ ?_, @BetaOneOneSpec.mk toySF ?_⟩
+  · intro a x _ hx
+    show 0 ≤ 1 - Real.exp (-x)
+    have : Real.exp (-x) ≤ 1 := Real.exp_le_one_iff.mpr (by linarith)
+    linarith
+  · intro a x _ _
+    show 1 - Real.exp (-x) ≤ 1
+    have := Real.exp_pos (-x); linarith
+  · intro a x y _ _ hxy
+    show 1 - Real.exp (-x) ≤ 1 - Real.exp (-y)
+    have : Real.exp (-y) ≤ Real.exp (-x) := Real.exp_le_exp.mpr (by linarith)
+    linarith
+  · intro a x _ _
+    show Real.exp (-x) = 1 - (1 - Real.exp (-x))
+    ring
+  · intro a x _ _; exact le_rfl
+  · intro a b x _ _ h0 _; exact h0
+  · intro a b x _ _ _ h1; exact h1
+  · intro a b x y _ _ _ hxy _; exact hxy
+  · intro a b _ _; rfl
+  · intro a b _ _; rfl
+  · intro a b x _ _ _ _; rfl
+  · intro a b x _ _ _ _; exact le_rfl
+  · intro a b x _ _ _ _; exact le_rfl
+  · intro x _ _; rfl
 
 end Statrs.Spec.Incomplete
